@@ -125,6 +125,7 @@ func cmdProp(args []string) {
 		fmt.Println(line)
 	}
 
+	vacuityCalls = *tier == "thorough"
 	ctx, err := loadCtx(*repo, cfg.Packages)
 	if err != nil {
 		// the tree does not load/type-check with the contracts: nothing can be proved
